@@ -265,8 +265,10 @@ def check_case(case, rec):
             if ok and ok2 and len(prods1) <= 60 and any(p.check_valence() for p in prods1 + prods2):
                 rec.count('renumbering clause skipped: the template makes valence-invalid products (labels on such atoms are undefined)')
             elif ok and ok2 and len(prods1) <= 60:
-                a, b = set(_canon(p) for p in prods1), set(_canon(p) for p in prods2)
-                if a != b and not _gap([m] + prods1 + prods2):
+                ca, cb = {_canon(p): p for p in prods1}, {_canon(p): p for p in prods2}
+                a, b = set(ca), set(cb)
+                # canonical strings are compared: products (or the substrate) inside a C01 gap / known finding are not judged
+                if a != b and not _gap([m] + [ca[k] for k in a - b] + [cb[k] for k in b - a]):
                     rec.fail('renumbering', f'{label}: product set changes under renumbering: {sorted(a)[:3]} vs {sorted(b)[:3]}')
                     return
     # with ring fixing: products must still be well formed
@@ -365,9 +367,10 @@ def check_reactor(case, rec):
     if len(mols) > 1 and len(rxns) <= 20:
         ok, rx2 = rec.guard('apply', lambda: list(reactor(*mols[::-1])))
         if ok:
-            a = Counter(tuple(sorted(_canon(p) for p in r.products)) for r in rxns)
-            b = Counter(tuple(sorted(_canon(p) for p in r.products)) for r in rx2)
-            if set(a) != set(b) and not _gap([p for r in rxns + rx2 for p in r.products]):
+            ka = {tuple(sorted(_canon(p) for p in r.products)): r for r in rxns}
+            kb = {tuple(sorted(_canon(p) for p in r.products)): r for r in rx2}
+            a, b = set(ka), set(kb)
+            if a != b and not _gap([p for k in a - b for p in ka[k].products] + [p for k in b - a for p in kb[k].products]):
                 rec.fail('reactant-order', f'{label}: product sets differ for reversed reactant order: {sorted(a)[:2]} vs {sorted(b)[:2]}')
                 return
     if rxns:
